@@ -1,2 +1,113 @@
-import Pakhi.Model.Interp
-import Pakhi.Model.Parser
+/-
+  C05 — calls bind by position, return the executed return value, and unwind cleanly.
+
+  Theorems about `interpret_func_call_expr` (`evalCall`, `bindParams`, `callLoop`) for every state:
+  parameters are bound by position in a fresh scope, missing arguments are nil, surplus arguments
+  are not even evaluated; the body runs until a `ফেরত` is the current statement and the call
+  evaluates to that statement's operand in the callee's scopes (nil for a bare `ফেরত;`, which is also
+  what closes every definition); on return the scope stack, the loop stack and the if-flag stack are
+  cut back to their heights at the call (fix F13: the pinned code left the callee's loops behind), so a
+  `ফেরত` from any depth of blocks, conditionals and loops leaves none of them visible to the caller; the
+  caller's statement position is untouched because expression evaluation never moves it (the model
+  passes it by value).  Calling a non-function or a name with no declaration is a located error.
+  That the caller's *own* scopes below the cut are unchanged by the body follows from the scoping
+  theorems of C04 applied along the body's run (refinement, DESIGN.md §6) and is decided meanwhile
+  by the C05 check (return position × call site matrix against the structured semantics).
+-/
+import Pakhi.Lemmas.Control
+
+namespace Pakhi
+namespace C05
+
+/-- binding is by position: the first parameter takes the first argument's value … -/
+theorem bind_positional (prog : List Stmt) (f : Nat) (cur : List Stmt) (p : Str) (ps : List Str) (a : Expr) (rest : Exprs)
+    (env : Scope) (s s1 : St) (v : Val) (ha : eval prog f cur a s = .ok (v, s1)) :
+    bindParams prog (f+1) cur (p :: ps) (.cons a rest) env s = bindParams prog f cur ps rest (assocSet env p v) s1 := by
+  simp [bindParams, ha]
+
+/-- … a parameter without argument is nil … -/
+theorem bind_missing_is_nil (prog : List Stmt) (f : Nat) (cur : List Stmt) (p : Str) (ps : List Str) (env : Scope) (s : St) :
+    bindParams prog (f+1) cur (p :: ps) .nil env s = bindParams prog f cur ps .nil (assocSet env p .nil) s := by
+  simp [bindParams]
+
+/-- … and surplus arguments are ignored without being evaluated -/
+theorem bind_surplus_ignored (prog : List Stmt) (f : Nat) (cur : List Stmt) (args : Exprs) (env : Scope) (s : St) :
+    bindParams prog (f+1) cur [] args env s = .ok (env, s) := by
+  simp [bindParams]
+
+/-- all parameters missing: every one of them is bound to nil, the state is untouched -/
+theorem bind_all_missing (prog : List Stmt) (cur : List Stmt) : ∀ (ps : List Str) (f : Nat) (env : Scope) (s : St), ps.length < f →
+    bindParams prog f cur ps .nil env s = .ok (ps.foldl (fun e p => assocSet e p .nil) env, s)
+  | [], f, env, s, h => by
+      obtain ⟨k, rfl⟩ : ∃ k, f = k + 1 := ⟨f - 1, by simp at h; omega⟩
+      simp [bindParams]
+  | p :: ps, f, env, s, h => by
+      obtain ⟨k, rfl⟩ : ∃ k, f = k + 1 := ⟨f - 1, by simp at h; omega⟩
+      rw [bind_missing_is_nil, bind_all_missing prog cur ps k _ s (by simp at h; omega)]
+      rfl
+
+/-- the body runs until a `ফেরত` is current; the call's value is that statement's operand, evaluated in the
+    callee's scopes at that point -/
+theorem return_value (prog : List Stmt) (f : Nat) (e : Expr) (m : Meta) (rest : List Stmt) (s : St) :
+    callLoop prog (f+1) (.ret e m :: rest) s = eval prog f (.ret e m :: rest) e s := by
+  simp [callLoop]
+
+/-- a bare `ফেরত;` — also the one that closes every function definition — yields nil -/
+theorem bare_return_is_nil (prog : List Stmt) (f : Nat) (m : Meta) (rest : List Stmt) (s : St) :
+    callLoop prog (f+2) (.ret (.nil m) m :: rest) s = .ok (.nil, s) := by
+  simp [callLoop, eval]
+
+/-- any other statement is executed and the loop goes on from where it leads -/
+theorem body_step (prog : List Stmt) (f : Nat) (st : Stmt) (rest cur' : List Stmt) (s s' : St)
+    (hst : ∀ e m, st ≠ .ret e m) (hx : exec prog f (st :: rest) s = .ok (cur', s')) :
+    callLoop prog (f+1) (st :: rest) s = callLoop prog f cur' s' := by
+  cases st <;> simp_all [callLoop]
+
+/-- C05 `call_unwinds`: whatever the body did — returned from inside nested blocks, conditionals or loops —
+    after the call the scope stack, the loop stack and the flag stack have exactly their heights at the call,
+    and what remains of them is the bottom part of the callee's final stacks -/
+theorem call_unwinds (prog : List Stmt) (f : Nat) (cur : List Stmt) (tok : Token) (m0 : Meta) (args : Exprs) (s s1 s2 : St)
+    (rem : Nat) (params : List Str) (env : Scope) (v : Val) (bm : Meta) (body : List Stmt)
+    (hnb : isBuiltin tok.lexeme = false)
+    (hf : lookupVar s.scopes tok.lexeme = some (.func rem params))
+    (hb : bindParams prog f cur params args [] s = .ok (env, s1))
+    (hbody : bodyOf prog rem = .blockStart bm :: body)
+    (hrun : callLoop prog f (.blockStart bm :: body) { s1 with scopes := env :: s1.scopes } = .ok (v, s2)) :
+    evalCall prog (f+1) cur (.var tok m0) args s =
+      .ok (v, { s2 with scopes := s2.scopes.drop (s2.scopes.length - s1.scopes.length),
+                        loops := s2.loops.drop (s2.loops.length - s1.loops.length),
+                        flags := s2.flags.drop (s2.flags.length - s1.flags.length) }) := by
+  simp [evalCall, stripGroups, hnb, hf, hb, hbody, hrun]
+
+/-- the heights are restored exactly whenever the callee did not pop below the call (always, for well-formed bodies) -/
+theorem heights_restored {α} (l : List α) (n : Nat) (h : n ≤ l.length) : (l.drop (l.length - n)).length = n := by
+  simp; omega
+
+/-- redundant parentheses around the function name do not matter -/
+theorem grouped_callee (prog : List Stmt) (f : Nat) (cur : List Stmt) (callee : Expr) (m : Meta) (args : Exprs) (s : St) :
+    evalCall prog (f+1) cur (.group callee m) args s = evalCall prog (f+1) cur callee args s := by
+  simp [evalCall, stripGroups]
+
+/-- calling something that is not a function, or an undeclared name, is a located runtime error -/
+theorem call_non_function (prog : List Stmt) (f : Nat) (st : Stmt) (rest : List Stmt) (tok : Token) (m0 : Meta) (args : Exprs) (s : St)
+    (hnb : isBuiltin tok.lexeme = false) :
+    (lookupVar s.scopes tok.lexeme = none →
+        ∃ e, evalCall prog (f+1) (st :: rest) (.var tok m0) args s = .err e ∧ e.cls = .runtime ∧ e.line = st.meta.line) ∧
+    (∀ v, lookupVar s.scopes tok.lexeme = some v → (∀ r ps, v ≠ .func r ps) →
+        ∃ e, evalCall prog (f+1) (st :: rest) (.var tok m0) args s = .err e ∧ e.cls = .runtime ∧ e.line = tok.line) := by
+  constructor
+  · intro h; simp [evalCall, stripGroups, hnb, h, stmtErr, mkErr, Res.tagOut]
+  · intro v h hv
+    cases v <;> first | exact absurd rfl (hv _ _) | simp [evalCall, stripGroups, hnb, h, metaErr, mkErr, Res.tagOut]
+
+/-- a definition stores a function value whose body is the code between `{` and the closing `ফেরত;`, and
+    execution continues behind the definition without running the body -/
+theorem definition_skips_body (prog : List Stmt) (ftok : Token) (vm hm : Meta) (args : Exprs) (params : List Str) (body : SBlock)
+    (re : Expr) (rm : Meta) (after : List Stmt) (s : St) (sc : Scope) (r : List Scope)
+    (hp : paramNames args = some params) (hs : s.scopes = sc :: r) (hw : body.WF) :
+    execFuncDef prog (.expr (.call (.var ftok vm) args hm) hm :: (body.flatten ++ (.ret re rm :: after))) s =
+      .ok (after, { s with scopes := assocSet sc ftok.lexeme (.func (body.flatten ++ (.ret re rm :: after)).length params) :: r }) := by
+  simp [execFuncDef, hp, hs, declareVar, skipBlock_whole_block body _ hw]
+
+end C05
+end Pakhi
